@@ -188,7 +188,14 @@ def run_convert(ctx, tr, d, s, k, via, key):
         from suit_generator import cmd_convert
 
         try:
-            cmd_convert.main(**kw)
+            if via == "obj":   # ONE converter object used the way a caller may: preview, write, write again - the file last written counts
+                conv = cmd_convert.KeyConverter(**kw)
+                if hasattr(conv, "prepare_file_contents"):
+                    conv.prepare_file_contents()
+                conv.generate_c_file()
+                conv.generate_c_file()
+            else:
+                cmd_convert.main(**kw)
         except Exception:
             pass
     text = out.read_text() if out.exists() else ""
@@ -274,7 +281,7 @@ def run(ctx: core.Check):
             skipped += 1
             continue
         lead += (s["zx"] + s["zy"]) > 0
-        run_convert(ctx, tr, d, s, k, "cli" if k % 25 == 0 else "lib", key)
+        run_convert(ctx, tr, d, s, k, "cli" if k % 25 == 0 else "obj" if k % 4 == 1 else "lib", key)
     # coordinates whose first / last byte has a value that serialisation code may treat specially
     base_e = {"zx": -1, "zy": -1, "cols": 8, "indent": 4, "tab": False, "nolength": False, "noconst": False}
     found_e = 0
